@@ -55,7 +55,8 @@ def safe_cmyk(
 def safe_rect_list(value: Any) -> Optional[Rect]:
     try:
         values = list(itertools.islice(value, 4))
-    except TypeError:
+    except (TypeError, KeyError):
+        # KeyError: a stream is subscriptable (by key) but not iterable
         return None
 
     if len(values) != 4:
